@@ -53,7 +53,7 @@ pub fn assemble(prog: &AProg) -> RefResult {
         if poisoned { break; }
         if !s.labels.is_empty() {
             match cur {
-                Some((_, lc)) => for l in &s.labels { bindings.entry(l.to_ascii_uppercase()).or_default().push((lc, false, i)); },
+                Some((_, lc)) => for l in &s.labels { bindings.entry(l.to_uppercase()).or_default().push((lc, false, i)); },
                 None => { v.insert(Cond::LabelOutsideBlock); sites.push((Cond::LabelOutsideBlock, i)); }
             }
         }
@@ -66,7 +66,7 @@ pub fn assemble(prog: &AProg) -> RefResult {
                 Some((o, lc)) => blocks.push((o, lc - o as u32)),
                 None => { v.insert(Cond::UnopenedEnd); sites.push((Cond::UnopenedEnd, i)); }
             },
-            Nuc::External(l) => { bindings.entry(l.to_ascii_uppercase()).or_default().push((0, true, i)); }
+            Nuc::External(l) => { bindings.entry(l.to_uppercase()).or_default().push((0, true, i)); }
             n => match &mut cur {
                 None => { v.insert(Cond::StmtOutsideBlock); sites.push((Cond::StmtOutsideBlock, i)); }
                 Some((_, lc)) => {
@@ -104,7 +104,7 @@ pub fn assemble(prog: &AProg) -> RefResult {
             let a16 = addr as u16;
             // label operand resolution
             let mut resolve = |l: &str, bits: u32| -> Option<i16> {
-                let key = l.to_ascii_uppercase();
+                let key = l.to_uppercase();
                 match obj.labels.get(&key) {
                     None => { v.insert(Cond::UndefinedLabel); sites.push((Cond::UndefinedLabel, i)); None }
                     Some(&(_, _)) if bindings[&key].iter().all(|b| b.1) => { v.insert(Cond::ExternalInOffset); sites.push((Cond::ExternalInOffset, i)); None }
@@ -149,7 +149,7 @@ pub fn assemble(prog: &AProg) -> RefResult {
             match &s.nuc {
                 Nuc::Fill(FillOp::Num(n)) => { obj.image.insert(a16, Some(*n)); }
                 Nuc::Fill(FillOp::Lab(l)) => {
-                    let key = l.to_ascii_uppercase();
+                    let key = l.to_uppercase();
                     match obj.labels.get(&key) {
                         None => { v.insert(Cond::UndefinedLabel); sites.push((Cond::UndefinedLabel, i)); }
                         Some(&(t, _)) => {
